@@ -4,6 +4,10 @@ From CppUVerif Require Import lib.Str gen.Gen_C16 C16_Events C16_Model C16_Escap
 Import ListNotations.
 Local Open Scope N_scope.
 
+(* the linear reversal used for long texts is List.rev *)
+Lemma frev_rev l : frev l = rev l.
+Proof. unfold frev. symmetry. apply rev_alt. Qed.
+
 Lemma run_sm_app a : forall st b,
   run_sm st (a ++ b) = match run_sm st a with Some st' => run_sm st' b | None => None end.
 Proof.
@@ -165,7 +169,7 @@ Proof.
   assert (E3 : step (mk S R (MAttrQuote nm A (c :: r))) 34 = Some (mk S R (MAttrVal nm A (c :: r) 34 [] false))) by reflexivity.
   rewrite E3, run_sm_app.
   destruct (val_segs segs S R nm A (c :: r) [] false Hs) as [cr' E4]. rewrite E4. rewrite app_nil_r.
-  cbn [run_sm]. unfold step. cbn [p_mode p_stack p_root]. rewrite N.eqb_refl, rev_involutive. reflexivity.
+  cbn [run_sm]. unfold step. cbn [p_mode p_stack p_root]. rewrite N.eqb_refl, frev_rev, rev_involutive. reflexivity.
 Qed.
 
 Fixpoint attrs_ok (attrs : list (bytes * list seg)) : bool :=
@@ -286,7 +290,7 @@ Fixpoint ptree_ind' (P : ptree -> Prop)
 
 Lemma flush_in_frame fn fa K S R acc :
   flush_text ((fn, fa, K) :: S) R acc = Some ((fn, fa, flushK K acc) :: S, R).
-Proof. destruct acc; reflexivity. Qed.
+Proof. destruct acc; [reflexivity|]. unfold flush_text, add_node, flushK. rewrite frev_rev. reflexivity. Qed.
 
 Definition parses (p : ptree) : Prop :=
   forall fn fa K S R acc br, br <> 3%nat ->
